@@ -58,8 +58,8 @@ Example C11_nonvacuous :
 Proof. split; [vm_compute; reflexivity|]. cbn. repeat constructor; cbn; intuition discriminate. Qed.
 
 (** ** "frames are never written concurrently ... the close callback fires once ... results in order": the write
-    discipline (Model.WsLock).  Any number of goroutines of one connection, each with any program of [c.write] and
-    [c.close] calls as the code makes them (every frame sent under the mutex, [closed] read under it), over EVERY
+    discipline (Model.WsLock).  Any number of goroutines of one connection, each with any program of [c.write], [c.close]
+    and lock-look-up-unlock calls as the code makes them (every frame sent under the mutex, [closed] read under it), over EVERY
     interleaving of their lock / begin-write / end-write / unlock steps: *)
 
 (** at most one goroutine is inside a write, the close frame is written at most once and CloseFunc is called exactly
@@ -103,6 +103,15 @@ Theorem C11_close_check_outside_lock_refuted :
   exists s, (wsrun (wsinit [[WClose false]; [WClose false]]) [0; 1; 0; 0; 0; 0; 1; 1; 1] = Some s /\ close_frames s = 2 /\ ws_cb s = 2)%nat.
 Proof. exact ws_close_check_outside_lock_witness. Qed.
 Print Assumptions C11_close_check_outside_lock_refuted.
+
+(** ... and a call that returns without unlocking (a stop for an id under which nothing runs, say) blocks every other
+    goroutine of the connection for good: the next result, the tickers, the close *)
+Theorem C11_mutex_left_locked_refuted :
+  exists s, (wsrun (wsinit [[WLook false; WLook true]; [WWrite "next" 1%Z true]; [WClose true]]) [0; 0] = Some s /\
+             wsstep s 0 = None /\ wsstep s 1 = None /\ wsstep s 2 = None /\
+             existsb unfinished (ws_thr s) = true)%nat.
+Proof. exact ws_lock_left_locked_witness. Qed.
+Print Assumptions C11_mutex_left_locked_refuted.
 
 Example C11_lock_nonvacuous :
   progs_as_written sample_progs = true /\
